@@ -189,6 +189,13 @@ def check_shape(case):
                         else:
                             pc.x, pc.y, pc.z = centre[0] + off, centre[1] + off, centre[2] + off
                         forms.append(('pc%s' % off, pc))
+                    if case.get('leg') == 'flag' or case.get('faults'):
+                        # exact coordinates a hair below the next cell - closer than a double can tell (Fraction)
+                        from fractions import Fraction
+                        fpc = Envs.PositionComponent(agent, model, 0, 0, 0)
+                        fpc.x, fpc.y, fpc.z = (Fraction(centre[0] + 1) - Fraction(1, 2 ** 70), Fraction(centre[1] + 1) - Fraction(1, 2 ** 70),
+                                               Fraction(centre[2] + 1) - Fraction(1, 2 ** 70))
+                        forms.append(('pc_fraction', fpc))
                     for fname, cpos in forms:
                         for entry in ('specific', 'generic', 'generic_positional'):
                             if case.get('huge') and entry == 'generic_positional':
